@@ -519,6 +519,7 @@ def judge(run, items, procs=8):
         pairs[(skey, call["npos"], tuple(sorted(call["kws"])))] = bool(nontrivial)
     for rec in div:
       run.add("error_class_differs_from_cpython_first_complaint", len(rec["calls"]))
+    stat_of = {rec["i"]: rec["calls"] for rec in stat}
     for rec in bad:
       c = cases[idx[rec["i"] - 1]]
       for k, clause, dev in rec["fails"]:
@@ -546,8 +547,10 @@ def judge(run, items, procs=8):
           keys = DEV_KEYS[dev]
           run.add(("posonly_kw_dev_" if dev == "posonly" else "hist_dev_%s_" % dev) + clause.split(":")[0])
         else:
-          # a failure that only shows after a re-assignment of the defaults is keyed as such
-          keys = ["C13:" + ("after-defaults-reassignment:" if before else "")
+          # a failing call whose outcome the re-assignment decides (spec-computed: HistEffect lost /
+          # gained / newdef) is keyed as such
+          effect = stat_of[rec["i"]][k - 1][5]
+          keys = ["C13:" + ("after-defaults-reassignment:%s:" % effect if effect else "")
                   + re.sub(r"^(wrong-param):.*$", r"\1", clause)]
         for key in keys:
           run.violation(key, what, {"sig": c["sig"], "kind": c["kind"], "redefs": before,
